@@ -12,7 +12,10 @@ THEOREMS = ["C03_select_exact", "C03_read_your_writes", "C03_fragile_outcome_ref
 RULE = ("engine histories on one shard (STORE/FLUSH/observe, park points inside the flush worker with reads issued "
         "while parked); an observation = QUERY RETURN + COUNT per type and typed REPLAY per (type, context); "
         "non-trivial = an observation taken with at least one event outside the active memtable; distinct by "
-        "(configuration, op sequence)")
+        "(configuration, op sequence); plus scenarios: a read parked in its set-up while a whole flush runs (and a shard "
+        "busy for 2.6 s), a reader holding a passive buffer's lock through the flush's release step, a flush that fails, "
+        "reads racing flushes, and three oracle-only scenarios no model run follows: a selection of 85 000+ rows inside a "
+        "flush window, more concurrent STOREs than the shard mailbox holds (8096) while the shard is parked")
 ASSUMPTIONS = ["thread interleavings are explored only through park points and quiescent observations",
                "one shard; the per-shard mailbox order is the tokio mpsc FIFO order (not modelled further)"]
 TRUSTED = ["Coq 8.16.1 kernel + coqc", "extraction (ExtrOcamlBasic) + ocaml/p_shard.ml",
